@@ -623,7 +623,7 @@ func c01eWorklist(c *Ctx) {
 			continue
 		}
 		role := finalRole(c, fn, ci)
-		use := lastUse(ci.a)
+		use := chunkLastUse(ci)
 		bb := c.fieldAtUse(fn, ci.a, "branchBehavior", use)
 		pos := c.W.Pos(ci.a.Pos())
 		cur := strings.SplitN(ci.stmts, ".statements[:", 2)[0]
